@@ -1,40 +1,20 @@
 ---- MODULE NixVersionLaws ----
-(* Unbounded form of the format-version laws of NixVersionOrder (C10), for Apalache: components range over all *)
-(* integers; `apalache-mc check --length=0 --inv=Laws` proves the laws for every triple, not only the TLC cube. *)
-EXTENDS Integers
+(* Unbounded form of the format-version laws (C10), for Apalache: the SAME operators as the TLC model          *)
+(* (NixVersionOrder: VLess, VEq, VLe, CanRead, CanWrite, OrderLaws, Transitive), with components ranging over  *)
+(* all integers; `apalache-mc check --length=0 --inv=Laws` proves the laws for every triple, not only the cube. *)
+EXTENDS Integers, NixVersionOrder
 VARIABLES
-  \* @type: Int;
-  ax,
-  \* @type: Int;
-  ay,
-  \* @type: Int;
-  az,
-  \* @type: Int;
-  bx,
-  \* @type: Int;
-  by,
-  \* @type: Int;
-  bz,
-  \* @type: Int;
-  cx,
-  \* @type: Int;
-  cy,
-  \* @type: Int;
-  cz
+  \* @type: <<Int, Int, Int>>;
+  a,
+  \* @type: <<Int, Int, Int>>;
+  b,
+  \* @type: <<Int, Int, Int>>;
+  c
 
-Less(x1, y1, z1, x2, y2, z2) == x1 < x2 \/ (x1 = x2 /\ y1 < y2) \/ (x1 = x2 /\ y1 = y2 /\ z1 < z2)
-Eq(x1, y1, z1, x2, y2, z2) == x1 = x2 /\ y1 = y2 /\ z1 = z2
-CanRead(x1, y1, z1, x2, y2, z2) == x1 = x2 /\ y1 >= y2
-CanWrite(x1, y1, z1, x2, y2, z2) == Eq(x1, y1, z1, x2, y2, z2)
+Init == /\ \E x \in Int, y \in Int, z \in Int : a = <<x, y, z>>
+        /\ \E x \in Int, y \in Int, z \in Int : b = <<x, y, z>>
+        /\ \E x \in Int, y \in Int, z \in Int : c = <<x, y, z>>
+Next == UNCHANGED <<a, b, c>>
 
-Init == ax \in Int /\ ay \in Int /\ az \in Int /\ bx \in Int /\ by \in Int /\ bz \in Int /\ cx \in Int /\ cy \in Int /\ cz \in Int
-Next == UNCHANGED <<ax, ay, az, bx, by, bz, cx, cy, cz>>
-
-Laws ==
-  /\ ~Less(ax, ay, az, ax, ay, az)
-  /\ (Less(ax, ay, az, bx, by, bz) \/ Less(bx, by, bz, ax, ay, az) \/ Eq(ax, ay, az, bx, by, bz))
-  /\ ~(Less(ax, ay, az, bx, by, bz) /\ Less(bx, by, bz, ax, ay, az))
-  /\ ((Less(ax, ay, az, bx, by, bz) /\ Less(bx, by, bz, cx, cy, cz)) => Less(ax, ay, az, cx, cy, cz))
-  /\ (CanWrite(ax, ay, az, bx, by, bz) => CanRead(ax, ay, az, bx, by, bz))
-  /\ (Eq(ax, ay, az, bx, by, bz) => ~Less(ax, ay, az, bx, by, bz))
+Laws == OrderLaws({a, b, c}) /\ Transitive({a, b, c})
 ====
